@@ -162,11 +162,11 @@ Init == /\ pc = "build" /\ mode \in {"blocks", "wiring"} /\ design = <<>> /\ die
         /\ inst = IF mode = "blocks" THEN Empty ELSE Canonical
 
 \* mode "blocks": every shape and every combination of the hard / pre-placed / boundary flags, slot by slot
-\* (the third block only soft or pre-placed, the boundary flag only on the first: keeps the product small)
+\* (the third block a square, soft or pre-placed; the boundary flag only on the first: keeps the product small)
 FlagChoices(slot) == { <<hd, pp, bd>> : hd \in (IF slot = 3 THEN {0} ELSE {0, 1}), pp \in {0, 1},
                                        bd \in (IF Thorough /\ slot = 1 THEN {0, 1} ELSE {0}) }
 AddBlock == /\ pc = "build" /\ mode = "blocks" /\ Len(inst.blocks) < MaxBlocks /\ inst.pins = <<>> /\ inst.form = "prime"
-            /\ \E s \in DOMAIN Shapes, f \in FlagChoices(Len(inst.blocks) + 1) :
+            /\ \E s \in (IF Len(inst.blocks) = 2 THEN {1} ELSE DOMAIN Shapes), f \in FlagChoices(Len(inst.blocks) + 1) :
                   inst' = [inst EXCEPT !.blocks = Append(@, Block(Len(inst.blocks) + 1, s, f[1], f[2], f[3]))]
             /\ UNCHANGED <<pc, mode, design, die>>
 \* the (w, h, x, y) form exists for rectangles only
@@ -185,7 +185,7 @@ AddPins == /\ pc = "build" /\ mode = "blocks" /\ Len(inst.blocks) >= 1 /\ inst.p
 MaxConns == IF Thorough THEN 3 ELSE 2
 AddB2B == /\ pc = "build" /\ mode = "wiring" /\ Len(inst.b2b) + Len(inst.p2b) < MaxConns /\ inst.p2b = <<>>
           /\ \E a \in Blocks(inst), b \in Blocks(inst), w \in {W52, W0} :
-                a <= b /\ inst' = [inst EXCEPT !.b2b = Append(@, <<a, b, w>>)]
+                (a < b \/ (a = 0 /\ b = 0)) /\ inst' = [inst EXCEPT !.b2b = Append(@, <<a, b, w>>)]
           /\ UNCHANGED <<pc, mode, design, die>>
 AddP2B == /\ pc = "build" /\ mode = "wiring" /\ Len(inst.b2b) + Len(inst.p2b) < MaxConns
           /\ \E p \in 0..(Len(inst.pins) - 1), b \in Blocks(inst), w \in {W1, W0} :
@@ -194,7 +194,7 @@ AddP2B == /\ pc = "build" /\ mode = "wiring" /\ Len(inst.b2b) + Len(inst.p2b) < 
 EndWiring == /\ pc = "build" /\ mode = "wiring"
              /\ pc' = "wired" /\ UNCHANGED <<mode, inst, design, die>>
 \* density and terminal mode
-Configs == IF mode = "wiring" THEN Densities \X BOOLEAN
+Configs == IF mode = "wiring" THEN { <<<<>>, FALSE>>, <<<<1, 2>>, FALSE>>, <<<<1, 1>>, FALSE>>, <<<<1, 2>>, TRUE>> }
            ELSE { <<<<>>, FALSE>>, <<<<1, 2>>, FALSE>>, <<<<>>, TRUE>>, <<<<1, 1>>, TRUE>> }
 Configure == /\ pc = "wired"
              /\ \E c \in Configs : inst' = [inst EXCEPT !.dens = c[1], !.tam = c[2]]
